@@ -13,6 +13,7 @@ package litefs
 //@ func (s *Store) DB [C06,C01]
 //@   requires  s != nil
 //@   modifies
+//@   ensures   result == s.dbs[name]
 //@   ensures   old(storeWF(s)) && result != nil ==> dbWF(result) && result.store == s
 //@   nopanic
 
